@@ -364,9 +364,31 @@ def w15_config_merge(tmp):
     if got["a"] is not True:
         return f"user wrote a = true, effective config has a = {got['a']!r}"
     doc = "[t]\nx = 1\n\n[[aot]]\nn = 1\n\n[[aot]]\nn = 2\n"
-    eff = _merge(tomlkit.parse(doc), tomlkit.parse(_comment_out_toml(doc)))
-    if eff != tomlkit.parse(doc):
-        return f"first-run file changes the effective configuration: {dict(eff)}"
+    eff = _merge(tomlkit.parse(doc).unwrap(), tomlkit.parse(_comment_out_toml(doc)).unwrap())
+    if eff != tomlkit.parse(doc).unwrap():  # compare plain values: tomlkit containers do not compare reliably
+        return f"first-run file changes the effective configuration: {eff}"
+    return None
+
+
+def w20_config_overlay_on_tomlkit_containers(tmp):
+    from aw_core import dirs
+    from aw_core.config import load_config_toml
+
+    def run(app, default, user):
+        d = dirs.get_config_dir(app)
+        with open(os.path.join(d, app + ".toml"), "w") as f:
+            f.write(user)
+        try:
+            r = load_config_toml(app, default)
+            return r.unwrap() if hasattr(r, "unwrap") else r
+        except Exception as ex:
+            return f"raised {type(ex).__name__}: {ex}"
+    got = run("w20a", 'a = {p = 1}\n', '[a]\np = true\n[a.t]\na = true\n')
+    if got != {"a": {"p": True, "t": {"a": True}}}:
+        return f"inline-table default extended by user sections: {got}"
+    got = run("w20b", '[[b.b]]\n[b]\nc = 0\n[[b.b]]\n', '[[b.b]]\n')
+    if got != {"b": {"b": [{}], "c": 0}}:
+        return f"default key lost when the user overrides a split array of tables: {got}"
     return None
 
 
